@@ -663,6 +663,7 @@ func (e *Engine) VerifyFunc(fn *ssa.Function) (vc *VC) {
 			continue
 		}
 		env := f.baseEnv(rst)
+		f.anchorAt(env, r.instr, false)
 		sig := fn.Signature
 		for k, rv := range r.results {
 			env.vars[fmt.Sprintf("result%d", k)] = rv
@@ -675,6 +676,16 @@ func (e *Engine) VerifyFunc(fn *ssa.Function) (vc *VC) {
 		}
 		for _, en := range fc.Ensures {
 			if !e.clauseActive(en) {
+				continue
+			}
+			if en.Kind == "defines" {
+				// definitional link between the function's results and an
+				// uninterpreted spec function: sound when the function is pure and
+				// deterministic in its arguments (checked), never proved here
+				if !e.inferPure(fn) {
+					cfail("defines clause on %s: the function is not (inferred) pure", fc.Ref)
+				}
+				vc.note("definitional clause (assumed at call sites): " + fc.Ref + ": " + en.Text)
 				continue
 			}
 			if en.Kind == "panics" {
